@@ -333,16 +333,45 @@ def run_boot(case, side, bs, vecs, replay=None):
     if 'train' not in captured:
         raise Reject('sets_k_fold not called', 'harness:capture')
     folds = []
-    for tr, te in zip(captured['train'], captured['test']):
-        folds.append(dict(train=positions(tr[0], '_rpos', '_cpos', 0, 0),
-                          test=positions(te[0], '_rpos', '_cpos', 0, 0),
-                          skipped=skipped(tr, te)))
+    rgrp = [S._plain(x) for x in rd[S.desc_name(spec, 'rdm')]]
+    pgrp = [S._plain(x) for x in pd[S.desc_name(spec, 'pat')]]
+    for f, (tr, te) in enumerate(zip(captured['train'], captured['test'])):
+        fold = dict(train=positions(tr[0], '_rpos', '_cpos', 0, 0),
+                    test=positions(te[0], '_rpos', '_cpos', 0, 0), skipped=skipped(tr, te))
+        folds.append(fold)
+        # the partition predicates of part A on a real bootstrap sample: every copy of a group on
+        # one side, test groups disjoint from training groups in each cross-validated dimension
+        for dim, grp, k, i in (('rdm', rgrp, k_rdm, 0), ('pat', pgrp, k_pat, 1)):
+            for side_name in ('train', 'test'):
+                ids = fold[side_name][i]
+                present = set(grp[x] for x in ids)
+                full = sorted(x for x in range(len(grp)) if grp[x] in present)
+                if sorted(ids) != full:
+                    _v('bootstrap sample, fold %d: %s set holds %s positions %s but the groups %s '
+                       'present in it occupy positions %s (copies of a group split)' % (
+                           f, side_name, dim, sorted(ids), sorted(present), full),
+                       'group-split:%s:boot' % dim)
+            if k > 1:
+                both = set(grp[x] for x in fold['train'][i]) & set(grp[x] for x in fold['test'][i])
+                if both:
+                    _v('bootstrap sample, fold %d: %s groups %s are in the training and in the '
+                       'test set' % (f, dim, sorted(both)), 'overlap:%s:boot' % dim)
     return folds, rec.calls, np.array(evals, copy=True)
 
 
 # ---- the metamorphic check --------------------------------------------------------------------
 
 def check_leak(case):
+    # fit_regress_nn's active-set loop can cycle forever on some inputs (a fitter matter, C08):
+    # such a case is inconclusive here
+    with core.watchdog(WATCHDOG_S):
+        _check_leak(case)
+
+
+WATCHDOG_S = 15
+
+
+def _check_leak(case):
     spec = case['stack']
     side = S.side_table(spec)
     side['vecs'] = A.apply_copies(spec, side)
